@@ -2,6 +2,7 @@ SPECIFICATION Spec
 CONSTANTS
   KeyOrder <- KO2
   Ctxs <- CtxT3
+  Flows <- SingleFlows
   Calls <- CallsDeep
 INVARIANT Emit
 CHECK_DEADLOCK FALSE
